@@ -150,7 +150,92 @@ class DebInit(Contract):
         return {"self": me, "filename": fresh(("opt", "str"), "filename"), "mode": lift("r"), "fileobj": NONE}
 
 
+# P-07b  the three spellings of a member name: 'name', './name' and '/name' are normalised to the same name, and has_file asks
+# the tar index for './name' in all three cases
+class NormalizeMember(Contract):
+    target = MOD + ":DebPart.__normalize_member"
+    modular = False
+    requires = ("not name.startswith('./') and not name.startswith('/')",)
+    ensures = ("result == name",)
+
+    def __init__(self, prefix):
+        self.prefix = prefix
+
+    def setup(self, ex):
+        name = fresh("str", "name")
+        self.model_vars = [str(name.t)]
+        full = VSeq("str", "int", z3.Concat(lift(self.prefix).t, name.t)) if self.prefix else name
+        return {"fname": full, "name": name}
+
+
+class TgzAbs(Contract):
+    target = MOD + ":DebPart.tgz"
+    modular = True
+    returns = ("obj", "TarIndex")
+
+    def setup(self, ex):
+        raise NotImplementedError
+
+
+class HasFile(Contract):
+    target = MOD + ":DebPart.has_file"
+    modular = False
+    requires = ("not name.startswith('./') and not name.startswith('/')",)
+    ensures = ("result == (('./' + name) in self.names)",)
+
+    def __init__(self, prefix):
+        self.prefix = prefix
+
+    def setup(self, ex):
+        name = fresh("str", "name")
+        full = VSeq("str", "int", z3.Concat(lift(self.prefix).t, name.t)) if self.prefix else name
+        me = VObj("DebPart", {"names": fresh(("list", "str"), "tar_names")}, "self")
+        return {"self": me, "fname": full, "name": name}
+
+
+def verify_member_names(ctx):
+    sl = SpecLib()
+    w = World(sl)
+    cs = []
+    for prefix in ("", "./", "/"):
+        for cls in (NormalizeMember, HasFile):
+            c = cls(prefix)
+            c.__class__ = type("%s_%s" % (cls.__name__, {"": "plain", "./": "dot_slash", "/": "slash"}[prefix]), (cls,), {})
+            cs.append(c)
+
+    # the tar index: tgz() hands out an object whose getnames() is the ghost list self.names
+    def tgz_model(ex, c, f, args, kwargs, node=None):
+        return None
+    _vals.REC_CLASSES.setdefault("TarIndex", [])
+    sl.models[("TarIndex", "getnames")] = lambda ex, a, kw: a[0].fields["names_of"]
+    t = TgzAbs()
+    w.add_contract(t)
+    orig = w.modular_call
+
+    def modular_call(ex, c, f, args, kwargs, node=None):
+        if c is t:
+            me = f.selfv if f.selfv is not None else args[0]
+            return VObj("TarIndex", {"names_of": me.fields["names"]}, "tar")
+        return orig(ex, c, f, args, kwargs, node)
+    w.modular_call = modular_call
+    from vf.pyvc.driver import native_replayer
+    DebPart = extract.load(MOD).real().DebPart
+    reps = {}
+    for c in cs:
+        if isinstance(c, NormalizeMember):
+            reps[c.qualname] = None
+    # one replayer per variant (the contracts share a qualified name: dispatch on the contract object)
+    def rp(model, obl, c):
+        if not isinstance(c, NormalizeMember):
+            return {"confirmed": False}
+        return native_replayer(lambda name, c=c: DebPart._DebPart__normalize_member(c.prefix + name), ["name"], {})(model, obl, c)
+    verify_contracts(ctx, w, cs, {"DebPart.__normalize_member": rp})
+    ctx.trusted.append("ASSUMED: DebPart.tgz().getnames() is the list of member names of the tar archive (tarfile is external)")
+    ctx.solve()
+
+
 def run_deductive(ctx):
+    verify_member_names(ctx)
     from props import C06 as _c06
     _vals.REC_CLASSES["ArMember"] = _c06.MEMBER_FIELDS
     sl = SpecLib()
